@@ -26,6 +26,7 @@ from vlib.common import hexs
 from checks import wcommon
 
 LEVEL = "fault_enumeration"
+NPROC = int(os.environ.get("C19_NPROC", "0")) or common.NCPU      # C19_NPROC=4 on a shared box
 WRAP = ("-Wl,--wrap=malloc,--wrap=calloc,--wrap=realloc,--wrap=strdup",)
 
 QUICK = ["s_grow", "w_snappy", "r_fread", "b_mmap"]
@@ -188,6 +189,8 @@ def scenario_line(cid, scn, k, path="@PATH@"):
             for c in range(ncols):
                 rb += ["K:%d:%d" % (g, c), "R:%d" % (scn["rows"] + 3)]
         rb.append("Z")
+        if s.get("win") == "close":
+            return " ".join(head + ["u:" + path] + st + w[:-1] + ["!"] + w[-1:] + ["~", "F:" + path] + rb)
         return " ".join(head + ["u:" + path] + st + ["!"] + w + ["~", "F:" + path] + rb)
     return " ".join(head + ["u:" + path] + st + w + ["!"] + prog_tokens(scn, path) + ["~"])
 
@@ -310,7 +313,7 @@ def _run_chunk(binary, lines, env, per_case_timeout):
 
 
 def run_cases(binary, lines, nproc=None, env=None, per_case_timeout=60.0):
-    nproc = nproc or common.NCPU
+    nproc = nproc or NPROC
     lines = list(lines)
     nchunks = max(1, min(nproc * 3, len(lines)))
     chunks = [lines[i::nchunks] for i in range(nchunks)]        # interleaved: neighbours in k land in different processes
@@ -364,8 +367,9 @@ def parse_M(val):
     return rows, nrg, rgs, leaves
 
 
-def events_of(cid, scn, toks):
-    """Returns (events, meta) where meta has count / fired / leak."""
+def events_of(cid, scn, toks, collapse_fixture=False):
+    """Returns (events, meta) where meta has count / fired / leak. collapse_fixture: replace the (fault-free,
+    all-OK) write history of a reader scenario by one Fixture event carrying the table promised for it."""
     s = scn["scenario"]
     kind = s["kind"]
     ops = scn["ops"]
@@ -378,7 +382,7 @@ def events_of(cid, scn, toks):
     if kind == "schema":
         cmds = [(p, True) for p in prog]
     else:
-        w = [(o, kind == "write") for o in ops]
+        w = [(o, kind == "write" and (s.get("win") != "close" or o["op"] == "Close")) for o in ops]
         if kind == "write":
             ngroups = 1 + sum(1 for o in ops if o["op"] == "NewRowGroup")
             rb = [({"op": "File"}, False), ({"op": "RbOpen"}, False)]
@@ -554,6 +558,11 @@ def events_of(cid, scn, toks):
                 ev.append(dict(base, e="SchemaFree"))
             live["schema"] = False
     ev.append({"id": cid, "e": "End", "leak": meta["leak"]})
+    if collapse_fixture and kind in ("read", "batch"):
+        nw = len(ops)
+        head = ev[:nw]
+        if len(head) == nw and all(e["e"] in ("Create", "WriteBatch", "NewRowGroup", "Close") and status_of(e) == "ok" and not e["armed"] for e in head):
+            ev = [{"id": cid, "e": "Fixture", "cols": norm_cols(cols), "table": scn["table"]}] + ev[nw:]
     return ev, meta
 
 
@@ -596,7 +605,7 @@ def shape_of(events):
 
 def validate(execs, nproc=None):
     """AllocTrace validation. Returns (verdicts, summed stats, tlc results)."""
-    verdicts, _, ress = common.validate_traces("AllocTrace", execs, nproc=nproc)
+    verdicts, _, ress = common.validate_traces("AllocTrace", execs, nproc=min(nproc or NPROC, NPROC))
     stats = collections.Counter()
     for r in ress:
         for k, v in r.cases[-1]["stats"].items():
@@ -635,6 +644,8 @@ def run(chk, tier, replay):
         "TLC; AllocFault.tla / AllocTrace.tla / Writer.tla; ASan, LeakSanitizer and SIGSEGV are observers of `fault`"]
     allowed = protocol_model(chk)
     ids = QUICK if tier == "quick" else THOROUGH
+    if os.environ.get("C19_ONLY"):                      # development aid: restrict the catalogue
+        ids = os.environ["C19_ONLY"].split(",")
     only = None
     if replay:
         with open(replay) as fh:
@@ -692,7 +703,7 @@ def run(chk, tier, replay):
             if r.toks is None:
                 execs.append([{"id": cid, "e": "Fault", "kind": r.fault[0] if r.fault else "crash"}])
                 continue
-            ev, meta = events_of(cid, scns[i], r.toks)
+            ev, meta = events_of(cid, scns[i], r.toks, collapse_fixture=True)
             r.meta = meta
             r.shape = shape_of(ev)
             if i in UNJUDGED_DATA:
